@@ -11,7 +11,7 @@ PROPS = {
              "(3) length sweep around 64/512/4096/65536/83521/131072 x 6 fills. Each vector is built from a raw vector (all queries: every position and rank "
              "for families 1,3; run/word/block edges +-1 and EVERY rank for family 2; plus the out-of-range set A(.)) and must equal the vectors built by "
              "FromIterator<bool>, copy_bit_vec and From<SparseVector/RLVector> in every answer; raw vectors reached by push/pop histories (pop_bit and pop_int routes that leave stale words behind the length) "
-             "must give the same answers as well. A case is non-trivial when it has both set and unset bits; distinct = distinct bit sequences (hashed case keys).",
+             "must give the same answers as well, and so must vectors whose support structures were enabled in other orders (enable_rank, enable_pred_succ, enable_select_zero; enable_select_zero, enable_pred_succ, enable_select, enable_rank). A case is non-trivial when it has both set and unset bits; distinct = distinct bit sequences (hashed case keys).",
         bounds={"quick": "N=12, d=2 (462 words), sweep 984 cases", "thorough": "N=18, d=3 (9723 words) + depth 4 over 8 letters (4096 words), sweep 1116 cases"},
         require_counters={"quick": {"vectors_with_long_superblock(ones)": 1, "vectors_with_long_superblock(zeros)": 1, "vectors_with_long_and_short(ones)": 1},
                           "thorough": {"vectors_with_long_superblock(ones)": 1, "vectors_with_long_superblock(zeros)": 1, "vectors_with_several_long(ones)": 1}},
@@ -35,7 +35,7 @@ MANIFEST_TEXT = {
 PROPS["C05"] = dict(
     driver="c05", builds=["rel", "dbg"], level="model_checking",
     rule="E-hist: breadth-first search over operation histories on the real RawVector / IntVector from several initial states (new, with_capacity, with_len at word boundaries -1/0/+1, "
-         "default, From<Vec<T>>/FromIterator<T> for the five item types). Actions take their parameters relative to the current length (push_bit, push_int at widths 1/7/63/64/exact-fill/fill+1, "
+         "default, From<Vec<T>>/FromIterator<T> for the five item types; with_len fill values wider than the item width, incl. values whose only set bit is just above it). Actions take their parameters relative to the current length (push_bit, push_int at widths 1/7/63/64/exact-fill/fill+1, "
          "pop_bit, pop_int incl. wider than the content, set_bit, set_int incl. word-straddling, resize up/down across word boundaries, clear, reserve; push/pop/set/resize/clear/reserve/pack/extend "
          "with values wider than the item width). After every transition: return value, len/width, every bit/item, iterators, and the canonical-state oracle (== a freshly built vector, identical bytes, same count of set bits). "
          "States are deduplicated on the real object's full representation (len, width, words); a state is non-trivial/distinct when its representation was not seen before in the same BFS.",
@@ -134,12 +134,12 @@ MANIFEST_TEXT["C17"] = dict(engine="E-input", design_ref="DESIGN.md §4 C17",
 PROPS["C16"] = dict(
     driver="c16", builds=["rel", "dbg"], level="model_checking",
     rule="E-hist: breadth-first search over call sequences on the real builders. SparseBuilder: 60 parameter sets (universe in {0,1,2,5,8,70} x capacity 0..4 x set/multiset) plus huge universes (2^63, usize::MAX-1, usize::MAX) x capacity 1..3, where the constructor itself must succeed; calls try_set(i), set(i) (panic caught) for i around next_index, "
-         "the universe end and usize::MAX, extend with fully valid lists and lists whose first element is invalid. RLBuilder: try_set(start, len) with start below/at/above the current length and 2^62, len in {0, 1, 3, 2^20, "
+         "the universe end and usize::MAX, extend with fully valid lists, lists whose first element is invalid and lists that become invalid after a valid prefix (the builder must then be exactly the builder that accepted some prefix of the valid part), each also through an iterator without size information. RLBuilder: try_set(start, len) with start below/at/above the current length and 2^62, len in {0, 1, 3, 2^20, "
          "the largest that fits, one more than fits, usize::MAX}, set_len below/at/above the length. After every call: accepted/refused exactly as the reference says; a refused call leaves every observable (len, next_index, counts, fullness, and the vector a clone converts to) unchanged; "
-         "len/next_index/is_full/is_empty/count_ones/count_zeros exact; conversion of a clone succeeds iff allowed and yields exactly the accepted positions / merged runs (also after completing a clone with the smallest admissible indices). "
+         "len/next_index/is_full/is_empty/count_ones/count_zeros exact; conversion of a clone succeeds iff allowed and yields a vector that answers get/rank/select/predecessor/successor at every index like the accepted positions / merged runs (also after completing a clone with the smallest admissible indices). "
          "States deduplicated on the builder's Debug rendering; distinct = distinct renderings per BFS.",
     bounds={"quick": "depth 4", "thorough": "depth 6"},
-    assumptions=[HOOK_ASSUMPTION, "extend with a list that becomes invalid after a valid prefix is not explored (what is accepted before the panic is not specified)"],
+    assumptions=[HOOK_ASSUMPTION, "after an extend that panics on an invalid element, how many of the valid elements before it were accepted is not specified; any prefix is admitted"],
 )
 MANIFEST_TEXT["C16"] = dict(engine="E-hist", design_ref="DESIGN.md §4 C16",
     technique="explicit-state breadth-first exploration of builder call sequences on the real builders, reference model of accepted calls, side-effect oracle on the Debug rendering",
@@ -152,7 +152,7 @@ PROPS["C14"] = dict(
          "must make load return Err, through a plain reader and a 3-byte short-read reader; skip_option over every prefix of Some(value) (and of Option values as serialized) must return Err unless complete, in which case the reader "
          "stands exactly at the end; every write budget 0..=size with a sink that accepts the budget in <=3-byte chunks (and in one piece) and then fails must make serialize return that error; every 8-byte truncation of the file "
          "must make the mapped view of the value be refused; serialize_to(file) under every RLIMIT_FSIZE limit (8-byte steps and unaligned neighbours) must return Err or leave the complete file, and load_from of every truncated file must return Err. Buffered writers: IntVectorWriter / RawVectorWriter scenarios under EVERY RLIMIT_FSIZE limit (step 8 bytes plus unaligned ones, SIGXFSZ ignored) must end in Err from new, "
-         "the documented push panic, or Err from close - or report success with a byte-identical complete file. Each fault point is a distinct case by construction.",
+         "the documented push panic, or Err from close - or report success with a byte-identical complete file; with the limit still in force, close() after a caught push panic and a second close() after a failed one must again be Err (an Ok claims a complete file). Each fault point is a distinct case by construction.",
     bounds={"quick": "144-value catalogue (52 312 byte fault points x load/skip/budget), 275 map truncations, 45 writer scenarios x every limit (4 326 limits below the final size)", "thorough": "extended catalogue, every byte of every value, 75 writer scenarios"},
     require_counters={"quick": {"writer_limits_below_final_size": 500, "mapped_truncations": 100}, "thorough": {"writer_limits_below_final_size": 500, "mapped_truncations": 100}},
     assumptions=[HOOK_ASSUMPTION, "a sink answering Interrupted is not part of the fault alphabet (retry-on-interrupt is std's write_all behaviour, not a stated guarantee)", "a writer that is dropped without close() ignores errors by documentation; only close() is held to the property"],
@@ -168,7 +168,7 @@ PROPS["C12"] = dict(
     rule="E-hist: every push history is replayed on a fresh writer over a real file, ended, and the file compared byte for byte with the serialization of the equivalent in-memory vector. IntVectorWriter: widths x buffer sizes in items "
          "{0,1,2,3,5,8,64,65} (and the default buffer) x every item count up to 3 buffers + 2 x value stream {pattern, all ones incl. bits above the width} x {push, extend<u8|u16|u32|u64|usize>} x ending {close, close twice, drop}. "
          "RawVectorWriter: every push history up to depth d over a 12-letter alphabet (push_bit 0/1, push_int at widths 0,1,7,31,32,33,63,64) x buffer sizes {0,1,64,65,128,192} x endings, with and without a parent header, plus long prefixes that "
-         "fill the buffer exactly. After every push len(); is_open before/after; second close Ok and bytes unchanged; IntVector files load back equal. A state is a history; distinct = histories with at least one bit pushed.",
+         "fill the buffer exactly. Every writer is opened on a path that already holds a longer file of other bytes (4 KiB or 64 KiB, derived from the case). After every push len(); is_open before/after; second close Ok and bytes unchanged; IntVector files load back equal. A state is a history; distinct = histories with at least one bit pushed.",
     bounds={"quick": "10 widths, depth 4: ~310 000 histories", "thorough": "64 widths, depth 5: ~3.6 M histories"},
     require_counters={},
     assumptions=[HOOK_ASSUMPTION, "I/O failures are C14's scope; dropping a RawVectorWriter that has a parent header is not generated (the parent is documented to call close_with_header)"],
@@ -181,10 +181,10 @@ MANIFEST_TEXT["C12"] = dict(engine="E-hist", design_ref="DESIGN.md §4 C12",
 PROPS["C20"] = dict(
     special="loom", driver="c20", builds=["loom", "rel"], level="model_checking",
     rule="E-sched: loom (DPOR over the C11 memory model, no preemption bound) explores every interleaving of T threads x K calls of the real serialize::temp_file_name, whose counter is a loom atomic in this build (hook H2; the use "
-         "site - fetch_add and the name formatting - is the shared line users run). Configurations (T,K): (2,1) (2,2) (2,3) (3,1) (3,2), thorough adds (3,3) (4,1) (4,2); shared and per-thread name parts; name parts incl. dotted, empty and "
-         "spaced ones. Oracle per execution: all returned paths pairwise distinct and each file name contains the caller's name part. distinct_nontrivial = distinct assignments of counter values to calls observed. "
+         "site - fetch_add and the name formatting - is the shared line users run). Configurations (T,K): (2,1) (2,2) (2,3) (3,1) (3,2), thorough adds (3,3) (4,1) (4,2); shared and per-thread name parts; name parts incl. dotted, empty, "
+         "spaced and 250 / 300-byte ones. Oracle per execution: all returned paths pairwise distinct and each file name contains the caller's name part. distinct_nontrivial = distinct assignments of counter values to calls observed. "
          "One loom configuration runs with files already present under the names the first counter values produce (the file system as an environment answer). "
-         "Beside it, on the normal build: deterministic sequential checks for 7 name parts; a deterministic history (threads that run one after the other, pre-existing files under the next names, 140 000 + 70 000 calls from single threads, i.e. beyond 2^16 and 2^17); "
+         "Beside it, on the normal build: deterministic sequential checks for 13 name parts (incl. lengths 100..300 bytes); a deterministic history (threads that run one after the other, pre-existing files under the next names, 140 000 + 70 000 calls from single threads, i.e. beyond 2^16 and 2^17); "
          "and a free-running run (8 OS threads x 20 000 calls) that is SAMPLING and decides nothing, but a duplicate it observes is a real counterexample.",
     bounds={"quick": "T x K up to 3 x 2 (7 847 executions) and 2 x 3", "thorough": "adds 3 x 3 (162 390 executions), 4 x 1 (56 805) and 4 x 2 (8 478 855 executions)"},
     assumptions=["memory orderings are loom's model of C11; more than 4 threads x 2 calls / 3 threads x 3 calls is outside the tiers",
@@ -201,7 +201,7 @@ PROPS["C18"] = dict(
          "a 12-byte file and a missing file; each history is executed from scratch on the real MemoryMap. Oracle after every action from /proc/self/maps: a successful map is 8-aligned, its whole page-rounded range is mapped to that file, readable "
          "(writable if mutable), as_ref() equals the file content and len() = size/8; missing / non-multiple-of-8 files give Err and leave nothing mapped; an empty file gives Err or a valid empty map; after Drop no page of the dropped range is still mapped to the file and other live maps are intact; "
          "every map sits between two PROT_NONE guard pages placed by the harness (one is placed first so that the library's mapping lands directly below it) and both guards must survive the drop, so an unmap that is one page too long or too short is seen deterministically; with no live "
-         "handle no test file is mapped; a write is visible through every live map of the file and in the file after the map is dropped. A state is a history; all histories are distinct by construction.",
+         "handle no test file is mapped; the process never holds more open descriptors to a test file than it has live maps of it (so a dropped map keeps nothing of the file open); a write is visible through every live map of the file and in the file after the map is dropped. A state is a history; all histories are distinct by construction.",
     bounds={"quick": "depth 1..3, 10 files: 12 808 histories", "thorough": "depth 1..4 over 10 files + depth 5 over 7 files: 1 509 086 histories"},
     require_counters={},
     timeout={"quick": 900, "thorough": 4 * 3600},
@@ -218,7 +218,7 @@ PROPS["C09"] = dict(
          "each other - with the argument set A(n) = {0, 1, n-1, n, n+1, 2n, 2^63, MAX-1, MAX} (plus every in-range value for the small ones) in EVERY argument position of rank, rank_zero (<= len), select, select_zero, select_iter, "
          "select_zero_iter, predecessor, successor; Iterator::nth / nth_back(k) for k in A(remaining) on every iterator kind after 0, 1 and 2 consumed items from the front and after 1 and 2 items consumed from the back (result, exact size hint afterwards, the next items); wavelet matrices over small "
          "alphabets with A(.) x (present, absent, outside-the-alphabet values incl. u64::MAX) in every position of rank/select/select_iter/inverse_select/predecessor/successor/contains, and WMCore map_down/map_down_with/map_up_with over all "
-         "(index, value); constructors with widths {0,1,13,64,65,2^20,MAX}, SparseBuilder::new with ones > universe, RLBuilder::try_set with start+len overflowing. No call may panic. Distinct by hashed structure.",
+         "(index, value) and map_down_with_two_positions over all (index, index, value) - the pair variant must answer like two single queries; constructors with widths {0,1,13,64,65,2^20,MAX}, SparseBuilder::new with ones > universe, RLBuilder::try_set with start+len overflowing. No call may panic. Distinct by hashed structure.",
     bounds={"quick": "N=6; WM scopes (1,6) (2,4) (3,3) (4,2)", "thorough": "N=10; WM scopes (1,10) (2,6) (3,4) (4,3)"},
     assumptions=[HOOK_ASSUMPTION, MODEL_ASSUMPTION, "documented 'may panic' cases (get(i >= len), with_len whose len*width overflows) are not checked; WMCore with values >= 2^width is only required not to panic"],
 )
@@ -245,7 +245,7 @@ MANIFEST_TEXT["C10"] = dict(engine="E-hist", design_ref="DESIGN.md §4 C10",
 PROPS["C15"] = dict(
     driver="c15", builds=["rel", "dbg"], level="exploration",
     rule="E-input: every non-decreasing value list of <= K values over every universe <= U (incl. overfull lists with more values than elements); duplicates with multiplicities {1,2,5,17} at bucket boundaries 2^w*k-1 / 2^w*k / 0 / n-1 "
-         "for universes 64..2^20 (the low width the parameter rule picks) and for universes 2^63, usize::MAX-1, usize::MAX with values at both ends; SparseVector::try_from_iter over EVERY sequence (sorted or not) of length <= L over 0..A. Checked: len, count_ones, is_multiset, select / select_iter at every rank and A(.), "
+         "for universes 64..2^20 (the low width the parameter rule picks) and for universes 2^63, usize::MAX-1, usize::MAX with values at both ends; multisets with 100 000 (thorough 300 000) copies of one value before / after / between other values and behind thousands of empty buckets (long select superblocks in the upper part), queried at the structural edges; SparseVector::try_from_iter over EVERY sequence (sorted or not) of length <= L over 0..A. Checked: len, count_ones, is_multiset, select / select_iter at every rank and A(.), "
          "get, rank, successor (first occurrence) and predecessor (last occurrence) as full iterators at every position and A(.), one_iter and the bit iterator forward, reversed and at every forward/backward split point; try_from_iter accepts exactly "
          "the non-decreasing sequences, sizes the universe to last+1 and equals the multiset builder's vector. Zero-side queries are not checked (documented as not meaningful for multisets). Non-trivial = has duplicates or is a try_from_iter sequence.",
     bounds={"quick": "U=6, K=7; L=5 over 0..6 (9 331 sequences)", "thorough": "U=9, K=10; L=7 over 0..8"},
@@ -326,7 +326,7 @@ C08_DRIVERS = ["c08x", "c01", "c02", "c03", "c04", "c05", "c09", "c10", "c13", "
 PROPS["C08"] = dict(
     monitor=True, drivers=C08_DRIVERS, builds=["rel", "native", "dbg"], extra_builds={"thorough": ["asan"]}, level="exploration",
     rule="(1) Own space (driver c08x): safe call sequences whose ANSWERS no property specifies but which must stay inside the buffers - conversions from every small multiset sparse vector (incl. overfull) to the other types followed by every query "
-         "with in-range and extreme arguments, zero-side queries on multisets, every query on bitvectors with each of the 8 support subsets (built and loaded), RawVector / IntVector accessors and setters at A(len), and EVERY mapped view type at EVERY "
+         "with in-range and extreme arguments, zero-side queries on multisets, every query on bitvectors with each of the 8 support subsets (built and loaded), RawVector / IntVector accessors and setters at A(len), RankSupport::rank and SelectSupport::select (safe public functions that take the parent as an argument) with their own and with FOREIGN parents (every pair of bit sequences of <= 4/6 bits plus word-, block- and superblock-sized shapes) at arguments past either end, and EVERY mapped view type at EVERY "
          "offset of library-written files (singles and pairs of catalogue values): a view is refused or lies inside the map. (2) Monitor over E-input / E-hist: the drivers of C01-C06, C09, C10, C13, C15 and C19 (structures built through the safe API AND their loaded copies; every query with the extreme-argument set A(.); every iterator call history; "
          "mapped views at good and bad offsets) are re-run in monitor mode with the bounds monitor H1 compiled into the library: every unchecked access on the query paths (low_set_unchecked, high_set_unchecked, bits::select and its two table reads, "
          "RawVector / RawVectorMapper::word_unchecked, RankSupport::rank_unchecked) first checks its index and panics with the marker VERIF-OOB. Verdict = a VERIF-OOB panic or a reproducible fatal signal inside a library call, in builds with and without "
